@@ -6,9 +6,11 @@
     HAPServerHandler.handle_set_characteristics / handle_prepare (status selection on a
     verified session).
 
-  The model mirrors the REPAIRED `set_characteristics` (design/fixes/C10.patch: no setter and no
-  callback collection when `expired`); `fixed := false` gives the code as shipped and is used only
-  by the counterexample theorem.
+  The model mirrors the REPAIRED `set_characteristics`: design/fixes/C10.patch (no setter and no
+  callback collection when `expired`; flag `fixed`) and design/fixes/C10b.patch (after a successful
+  setter the service / accessory callbacks are handed the normalised value; flag `nu`).
+  `fixed := false` / `nu := false` give the code as shipped and are used only by the
+  counterexample theorems.
 
   Parameters (behaviour of objects outside this function, supplied per request):
     * `Query.valid`  – what `Characteristic.to_valid_value` + `valid_value_or_raise` do with the
@@ -124,20 +126,22 @@ structure L1 where
   updates : List Upd
 
 /-- body of `for query in queries:` -/
-def step1 (fixed expired : Bool) (s : L1) (q : Query) : L1 :=
+def step1 (fixed nu expired : Bool) (s : L1) (q : Query) : L1 :=
   if !q.hasValue && !expired then s else                         -- continue
   let value : Option Val := if q.hasValue then q.value else none -- query.get("value")
   let run : Bool := value.isSome && (!fixed || !expired)         -- `value is not None [and not expired]`
   let r : CharSt × Int × Option Val :=
     if run then wrapCharSetter q s.st else (s.st, INVALID, none)
   let res : Res := if r.2.2.isSome && q.wr then ⟨r.2.1, r.2.2⟩ else ⟨r.2.1, none⟩
+  -- `if set_result == SUCCESS: value = char.to_valid_value(value)` (C10b)
+  let up : Option Val := if nu && run && r.2.1 == OK then q.valid else value
   let results := s.results ++ [(q.id, res)]
   if fixed && expired then { st := r.1, results := results, updates := s.updates }  -- continue
-  else { st := r.1, results := results, updates := s.updates ++ [(q.id, value)] }
+  else { st := r.1, results := results, updates := s.updates ++ [(q.id, up)] }
 
-def loop1 (fixed expired : Bool) : L1 → List Query → L1
+def loop1 (fixed nu expired : Bool) : L1 → List Query → L1
   | s, [] => s
-  | s, q :: qs => loop1 fixed expired (step1 fixed expired s q) qs
+  | s, q :: qs => loop1 fixed nu expired (step1 fixed nu expired s q) qs
 
 /-- keys of an insertion-ordered dict: first occurrences, in order -/
 def firsts {κ : Type} [DecidableEq κ] : List κ → List κ
@@ -216,9 +220,9 @@ structure WriteOut where
   body : Option (List (CharId × Res))
 
 /-- `set_characteristics` after the pid / expiry block. -/
-def setChars (fixed : Bool) (T : Topo) (B : Behav) (expired : Bool) (vals : CharId → Val)
+def setChars (fixed nu : Bool) (T : Topo) (B : Behav) (expired : Bool) (vals : CharId → Val)
     (queries : List Query) : WriteOut :=
-  let l1 := loop1 fixed expired ⟨⟨vals, []⟩, [], []⟩ queries
+  let l1 := loop1 fixed nu expired ⟨⟨vals, []⟩, [], []⟩ queries
   let p2 := pass2 T B l1.updates l1.results l1.st.log
   let chars := assemble p2.1
   { vals := l1.st.vals, log := p2.2, chars := chars,
@@ -249,9 +253,9 @@ def popPid (s : State) (c : Conn) : Option Pid → Bool × (Conn → Pid → Opt
     (expired, fun c' p' => if c' = c ∧ p' = p then none else s.prep c' p')
 
 /-- `AccessoryDriver.set_characteristics(chars_query, client_addr)` -/
-def write (fixed : Bool) (T : Topo) (s : State) (c : Conn) (b : Batch) : State × WriteOut :=
+def write (fixed nu : Bool) (T : Topo) (s : State) (c : Conn) (b : Batch) : State × WriteOut :=
   let pp := popPid s c b.pid
-  let out := setChars fixed T b.behav pp.1 s.vals b.queries
+  let out := setChars fixed nu T b.behav pp.1 s.vals b.queries
   ({ s with prep := pp.2, vals := out.vals }, out)
 
 /-- `AccessoryDriver.prepare(prepare_query, client_addr)`: a missing key is a KeyError, answered
@@ -279,18 +283,18 @@ inductive Op where
   | write (c : Conn) (b : Batch)
   | lose (c : Conn)
 
-def step (fixed : Bool) (T : Topo) (s : State) : Op → State
+def step (fixed nu : Bool) (T : Topo) (s : State) : Op → State
   | .prepare c ttl pid => (prepare s c ttl pid).1
   | .advance dt => { s with now := s.now + dt }
-  | .write c b => (write fixed T s c b).1
+  | .write c b => (write fixed nu T s c b).1
   | .lose c => lose s c
 
 /-- State after a history given most-recent-first. -/
-def runRev (fixed : Bool) (T : Topo) (s0 : State) : List Op → State
+def runRev (fixed nu : Bool) (T : Topo) (s0 : State) : List Op → State
   | [] => s0
-  | op :: earlier => step fixed T (runRev fixed T s0 earlier) op
+  | op :: earlier => step fixed nu T (runRev fixed nu T s0 earlier) op
 
 /-- State after a history given in chronological order. -/
-def run (fixed : Bool) (T : Topo) (s0 : State) (h : List Op) : State := runRev fixed T s0 h.reverse
+def run (fixed nu : Bool) (T : Topo) (s0 : State) (h : List Op) : State := runRev fixed nu T s0 h.reverse
 
 end Hap.Writes
